@@ -286,7 +286,16 @@ def scorer_object_counting_run(rec, rng, G, n_thetas, budget, total):
     plates = {int(p.plate_id): p for p in screen.plates}
     want = min(total, budget)
     try:
-        res = G.GaussianDBALScorer(max_chunk=int(rng.choice([1, 2, 50])), max_triples=budget).score(plates=plates, distance_matrix=cdm, samples=holder, rng=np.random.default_rng(int(rng.integers(0, 2**31))), progress_bar=False)
+        if rng.random() < 0.3:
+            # the budget is a public attribute: built with another value, scored once, then set to this one
+            sc_obj = G.GaussianDBALScorer(max_chunk=int(rng.choice([1, 2, 50])), max_triples=int(rng.choice([1, 4, 5000])))
+            if rng.random() < 0.5:
+                sc_obj.score(plates=plates, distance_matrix=cdm, samples=holder, rng=np.random.default_rng(1), progress_bar=False)
+            sc_obj.max_triples = budget
+            rec.count("scorer_objects_with_reassigned_budget")
+        else:
+            sc_obj = G.GaussianDBALScorer(max_chunk=int(rng.choice([1, 2, 50])), max_triples=budget)
+        res = sc_obj.score(plates=plates, distance_matrix=cdm, samples=holder, rng=np.random.default_rng(int(rng.integers(0, 2**31))), progress_bar=False)
     except Exception as e:
         rec.violation("C15/scorer/raises", "GaussianDBALScorer(max_triples=%d).score raised %r" % (budget, e), {"n_thetas": n_thetas, "budget": budget})
         return
